@@ -151,3 +151,15 @@ TreeCycles.vos TreeCycles.vok TreeCycles.required_vos: TreeCycles.v Bytes.vos Se
 TreeCyclesFacts.vo TreeCyclesFacts.glob TreeCyclesFacts.v.beautified TreeCyclesFacts.required_vo: TreeCyclesFacts.v Bytes.vo BytesFacts.vo Segment.vo SegmentFacts.vo Stack.vo StackFacts.vo Collection.vo CollectionFacts.vo Store.vo StoreFacts.vo Tree.vo TreeColl.vo TreeFacts.vo TreeInv.vo TreeInvFacts.vo TreeCycles.vo FlatRun.vo TreeRun.vo
 TreeCyclesFacts.vio: TreeCyclesFacts.v Bytes.vio BytesFacts.vio Segment.vio SegmentFacts.vio Stack.vio StackFacts.vio Collection.vio CollectionFacts.vio Store.vio StoreFacts.vio Tree.vio TreeColl.vio TreeFacts.vio TreeInv.vio TreeInvFacts.vio TreeCycles.vio FlatRun.vio TreeRun.vio
 TreeCyclesFacts.vos TreeCyclesFacts.vok TreeCyclesFacts.required_vos: TreeCyclesFacts.v Bytes.vos BytesFacts.vos Segment.vos SegmentFacts.vos Stack.vos StackFacts.vos Collection.vos CollectionFacts.vos Store.vos StoreFacts.vos Tree.vos TreeColl.vos TreeFacts.vos TreeInv.vos TreeInvFacts.vos TreeCycles.vos FlatRun.vos TreeRun.vos
+StoreOps.vo StoreOps.glob StoreOps.v.beautified StoreOps.required_vo: StoreOps.v 
+StoreOps.vio: StoreOps.v 
+StoreOps.vos StoreOps.vok StoreOps.required_vos: StoreOps.v 
+StoreOpsFacts.vo StoreOpsFacts.glob StoreOpsFacts.v.beautified StoreOpsFacts.required_vo: StoreOpsFacts.v StoreOps.vo
+StoreOpsFacts.vio: StoreOpsFacts.v StoreOps.vio
+StoreOpsFacts.vos StoreOpsFacts.vok StoreOpsFacts.required_vos: StoreOpsFacts.v StoreOps.vos
+Owners.vo Owners.glob Owners.v.beautified Owners.required_vo: Owners.v 
+Owners.vio: Owners.v 
+Owners.vos Owners.vok Owners.required_vos: Owners.v 
+OwnersFacts.vo OwnersFacts.glob OwnersFacts.v.beautified OwnersFacts.required_vo: OwnersFacts.v Owners.vo
+OwnersFacts.vio: OwnersFacts.v Owners.vio
+OwnersFacts.vos OwnersFacts.vok OwnersFacts.required_vos: OwnersFacts.v Owners.vos
